@@ -228,3 +228,33 @@ def unit_pp_gas_si(twin=False):
     r.add("reach.recomputed_and_cached", DISCHARGED if nc and nr else UNDECIDED, "symex", 0, "%d/%d/%d" % (nc, nr, nn), kind="vacuity")
     r.assumptions += ["pr_si_f is the log10 fugacity coefficient left by calc_PR (C19.calc_PR.* units)", "which unknowns are gases with critical data (the guard of the block) is not pinned"]
     return r
+
+
+def unit_fixed_volume_molar_volume(twin=False):
+    """calc_gas_pressures, fixed-volume Peng-Robinson phase: the molar volume handed to the equation of state is V / n damped with the previous
+    value, (V_m_old + V/n) / 2, for every V/n that can occur in the property's range 0.01..1000 atm at 0..200 C - the safety clamps on V/n may
+    only act outside R T / P for that range (R T_max / P_min = 0.0820575 * 473.15 / 0.01 = 3882.5 L/mol)"""
+    q = "Phreeqc::calc_gas_pressures"
+    fn = A.find_function(MODEL, q)
+    r = U.new_unit("C19.calc_gas_pressures.fixed_volume_molar_volume_not_clamped_inside_the_pressure_range", MODEL, q, fn)
+    blk = [x for x in A.walk(fn) if x.get("kind") == "IfStmt" and len(x["inner"]) >= 2 and text_of(MODEL, x["inner"][1]).replace("{", "").startswith("V_m=gas_phase_ptr->Get_volume()/gas_phase_ptr->Get_total_moles()")]
+    if len(blk) != 1:
+        raise Undecided("molar-volume block of the fixed-volume branch not found (%d)" % len(blk))
+    c = ctx(functional=("Get_volume", "Get_total_moles", "Get_v_m"))
+    f, ex, fin, info = region(MODEL, q, [blk[0]], c)
+    hi = tm.Q("3882.5") if not twin else tm.Q("20000")
+    n = 0
+    for s in live(fin, ("run",)):
+        vol = [e for e in s.events if e.name.endswith("Get_volume")]; mol = [e for e in s.events if e.name.endswith("Get_total_moles")]; old = [e for e in s.events if e.name.endswith("Get_v_m")]
+        if not (vol and mol and old):
+            continue
+        V = vol[0].result / mol[0].result
+        vm = local(info, s, "V_m")
+        hy = list(s.pc) + [tm.le(tm.Q("7/100"), V), tm.le(V, hi)]
+        if B.z3_prove(hy, tm.FALSE)[0] == "proved":
+            continue                                        # this path is for V/n outside the range considered
+        n += 1
+        U.discharge_eq_real(r, "V_m==(V_m_old+V/n)/2_for_0.07<=V/n<=RT_max/P_min#%d" % n, hy, vm, (old[-1].result + V) / tm.num(2))
+    r.add("reach.paths_in_range", DISCHARGED if n else UNDECIDED, "symex", 0, str(n), kind="vacuity")
+    r.assumptions += ["the stronger damping below 0.07 L/mol (near the co-volume) is not pinned", "doubles as reals"]
+    return r
